@@ -16,12 +16,6 @@ PATTERNS = ['a*/', '*.cmake/', 'mod*/', 'e?/', 'aa/', 'ab/', 'ac/', 'build', 'su
 
 
 def file_content(g, name):
-    text = file_content_lf(g, name)
-    # a file saved with CRLF line endings (doccomment lines keep their '\r'): stdout and the written page must still be the same bytes
-    return text.replace('\n', '\r\n') if text and g.random() < 0.12 else text
-
-
-def file_content_lf(g, name):
     ident = re.sub(r'\W', '_', name)
     k = g.random()
     if k < 0.08:      # characters that str.splitlines() treats as line boundaries although CMake and the aggregator do not
